@@ -5,7 +5,11 @@
 (*                                                                          *)
 (* A pixel is <<r, g, b, a>> as the standard colour model reports it:       *)
 (* alpha-premultiplied, 16 bits per channel; NoPixel = the image ends above *)
-(* this row.  A displayed colour is <<>> (the terminal's default colour) or *)
+(* this row (whatever the image type answers when asked for a point outside *)
+(* its bounds is not a pixel of the image).  Pixels are counted from the    *)
+(* image's own top-left corner: an image is its Dx x Dy pixels, wherever    *)
+(* its bounds start (a crop keeps the coordinates of the picture it was     *)
+(* taken from).  A displayed colour is <<>> (the terminal's default colour) or *)
 (* <<r, g, b>> with 8-bit channels.  A pixel whose 8-bit alpha is below     *)
 (* Threshold is "sufficiently transparent" (the library documents 50).      *)
 (* A displayed channel v stands for the straight (un-premultiplied) channel *)
